@@ -46,17 +46,31 @@ static const int FACV[20] = { LOG_AUTH, LOG_AUTHPRIV, LOG_CRON, LOG_DAEMON, LOG_
 
 /* ---- stubs ------------------------------------------------------------ */
 static snoopy_configuration_t g_cfg;
-snoopy_configuration_t *snoopy_configuration_get(void) { return &g_cfg; }
+static int g_cfg_gets;
+snoopy_configuration_t *snoopy_configuration_get(void)
+{
+    /* every component asks for the configuration a few times per record; dozens of requests for ONE logged exec mean the
+     * error report re-enters the failing output without bound (runaway recursion => stack overflow in the calling process) */
+    g_cfg_gets++;
+    V_ASSERT(g_cfg_gets <= 24, "C03/C02: error reporting re-enters the failing output without bound (runaway recursion)");
+#ifdef VERIF_CBMC
+    __CPROVER_assume(g_cfg_gets <= 24);
+#endif
+    return &g_cfg;
+}
 int snoopy_filtering_check_chain(char const * const chain) { (void)chain; return (IN.drop & 1) ? SNOOPY_FILTER_DROP : SNOOPY_FILTER_PASS; }
 int snoopy_datasourceregistry_doesNameExist(char const * const n) { (void)n; return 0; }
 int snoopy_datasourceregistry_callByName(char const * const n, char * const b, size_t s, char const * const a) { (void)n; (void)b; (void)s; (void)a; return -1; }
 #ifndef PIDBITS
 #define PIDBITS 22          /* Linux PID_MAX_LIMIT = 2^22 */
 #endif
+#ifndef PIDBASE
+#define PIDBASE 0           /* partition of the pid range: pid = PIDBASE + (PIDBITS symbolic bits) */
+#endif
 #ifdef HAVE_VSYS      /* vsys.c supplies getpid (and the forbidden-call assertions) */
 #include "vsys.h"
 #else
-pid_t getpid(void) { return (pid_t)(IN.pid & ((1 << PIDBITS) - 1)); }
+pid_t getpid(void) { return (pid_t)(PIDBASE + (IN.pid & ((1 << PIDBITS) - 1))); }
 #endif
 void v_fs_lookup(const char *path, struct v_vfile *out) { (void)path; out->exists = 0; }
 
@@ -80,6 +94,7 @@ static int rec_is(const struct v_wrec *r, int dest, const char *want, size_t wl)
 
 static void run_once(void)
 {
+    g_cfg_gets = 0;
     snoopy_action_log_syscall_exec();
 
     size_t ml = strlen(IN.msg), al = strlen(IN.arg);
@@ -89,6 +104,9 @@ static void run_once(void)
     V_ASSERT(v_open_streams == 0, "C03/C16: every opened stream is closed on every path");
     V_ASSERT(v_sock_open == 0, "C03/C16: every socket is closed on every path");
 
+#ifdef OVERLONG_TEMPLATE
+    return;     /* only termination, bounded error reporting and 'nothing left open' are judged in this partition */
+#endif
     if (!logged) {
         V_ASSERT(v_nw == 0 && v_fopen_calls == 0 && v_sock_calls == 0, "C04/C07: a filtered-out or empty message produces no output of any kind");
     } else {
@@ -146,7 +164,7 @@ static void run_once(void)
                 if (IN.out == 0) {
                     want[wl++] = '<'; wl = put_dec(want, wl, FACV[IN.fac] | IN.lev); want[wl++] = '>';
                     for (size_t i = 0; IN.ident[i] != '\0'; i++) want[wl++] = IN.ident[i];
-                    want[wl++] = '['; wl = put_dec(want, wl, IN.pid & ((1 << PIDBITS) - 1)); want[wl++] = ']'; want[wl++] = ':'; want[wl++] = ' ';
+                    want[wl++] = '['; wl = put_dec(want, wl, PIDBASE + (IN.pid & ((1 << PIDBITS) - 1))); want[wl++] = ']'; want[wl++] = ':'; want[wl++] = ' ';
                 }
                 for (size_t i = 0; i < ml; i++) want[wl++] = IN.msg[i];
                 V_ASSERT(rec_is(&v_w[0], V_DEST_SOCKET, want, wl), "C04: datagram is exactly the message (devlog: <pri>ident[pid]: message)");
@@ -165,6 +183,17 @@ static void run_once(void)
 void harness(void)
 {
     V_HAVOC_IN();
+#ifdef OVERLONG_TEMPLATE   /* nearly concrete run: ident / path template longer than its (scaled) buffer, error logging on, all I/O succeeds */
+    for (int i_ = 0; i_ < V_NCH; i_++) IN.ch[i_] = 0;
+    IN.errlog = 1; IN.drop = 0;
+    IN.msg[0] = 'm'; IN.msg[1] = '\0';
+    for (int i_ = 0; i_ < ARGMAXLEN; i_++) IN.arg[i_] = 'a';
+    IN.ident[0] = 'i'; IN.ident[1] = 'i';
+#endif
+#ifdef ALLFAIL     /* partition: every environment call fails, error logging on: a nearly concrete run that follows runaway retry/recursion cheaply */
+    for (int i_ = 0; i_ < V_NCH; i_++) IN.ch[i_] = 1;
+    IN.errlog = 1; IN.drop = 0;
+#endif
     V_LOAD_CH();
     IN.msg[MSGMAX] = '\0'; IN.arg[ARGMAXLEN] = '\0'; IN.ident[2] = '\0';
     for (int i = 0; i < MSGMAX; i++) V_ASSUME(IN.msg[i] != '%');        /* format expansion is C05's subject */
@@ -181,7 +210,7 @@ void harness(void)
 #endif
     v_fs_reset();
 #ifdef HAVE_VSYS
-    v_sys.pid = (pid_t)(IN.pid & ((1 << PIDBITS) - 1));
+    v_sys.pid = (pid_t)(PIDBASE + (IN.pid & ((1 << PIDBITS) - 1)));
 #endif
     v_stdio_bufsize = IN.bufsize;
 
